@@ -9,6 +9,7 @@ length (`emitOps … = none`) and `Cigar.IsValid` reaching `Consumes` of an unde
 fields (the `len(f) < 11` test), `text[0..4]`/`text[5:]` the pattern match on at least five bytes.
 -/
 import Hts.Model.SamText
+import Hts.Model.DecodersSam
 import Hts.Lemmas.Decoders
 namespace Hts.Model.SamText
 
@@ -177,3 +178,71 @@ theorem noHeaderLoop_ne_panic (ft : FloatText) : ∀ (ls seen : List Bytes),
       · exact ih _ r h
 
 end Hts.Model.SamText
+
+namespace Hts.Model.Decoders
+open Outcome (ok err)
+
+theorem getLast?_eq_getElem (b : Bytes) (h : b.length ≠ 0) : b.getLast? = some (b[b.length - 1]'(by omega)) := by
+  rw [List.getLast?_eq_getElem?]
+  exact List.getElem?_eq_getElem (by omega)
+
+/-- after the delimiter is cut off, the explicit version is `stripCR` of C06's model; never a panic -/
+theorem readerLineIdx_terminated (line : Bytes) :
+    readerLineIdx (line ++ [10]) true = ok (Hts.Model.SamText.stripCR line) := by
+  unfold readerLineIdx Hts.Model.SamText.stripCR
+  simp only [if_true]
+  rw [sliceTo_of_le _ _ _ (by omega), bind_ok _ _ _ rfl]
+  have ht : (line ++ [10]).take ((line ++ [10]).length - 1) = line := by simp
+  rw [ht]
+  by_cases h0 : line.length = 0
+  · have : line = [] := List.eq_nil_of_length_eq_zero h0
+    subst this
+    rfl
+  · rw [if_pos h0]
+    have hi : indexInt "sam.Reader.Read:b[len(b)-1]" line ((line.length : Int) - 1) = ok (line[line.length - 1]'(by omega)) := by
+      unfold indexInt
+      rw [if_neg (by omega)]
+      have : ((line.length : Int) - 1).toNat = line.length - 1 := by omega
+      rw [this, index_of_lt _ _ _ (by omega)]
+    rw [bind_ok _ _ _ hi, getLast?_eq_getElem line h0]
+    by_cases hc : line[line.length - 1]'(by omega) = 13
+    · rw [if_pos hc, sliceTo_of_le _ _ _ (by omega)]
+      simp only [hc, if_true, List.dropLast_eq_take]
+    · rw [if_neg hc]
+      have : ¬ (some (line[line.length - 1]'(by omega)) = some (13 : UInt8)) := by
+        intro h; injection h with h; exact hc h
+      rw [if_neg this]
+      rfl
+
+theorem readerLineIdx_total (b : Bytes) (terminated : Bool) (h : terminated = true → b.getLast? = some 10) :
+    (readerLineIdx b terminated).isPanic = false := by
+  cases terminated with
+  | true =>
+    have hl := h rfl
+    have hne : b ≠ [] := by intro e; subst e; cases hl
+    have hb : b = b.dropLast ++ [10] := by
+      have := List.dropLast_concat_getLast hne
+      rw [List.getLast?_eq_some_getLast hne] at hl
+      injection hl with hl
+      rw [hl] at this
+      exact this.symm
+    rw [hb, readerLineIdx_terminated]
+    rfl
+  | false =>
+    unfold readerLineIdx
+    simp only [Bool.false_eq_true, if_false]
+    split
+    · rfl
+    · rename_i h0
+      rw [pure_eq_ok, bind_ok _ _ _ rfl]
+      rw [if_pos h0]
+      apply bind_total
+      · unfold indexInt
+        rw [if_neg (by omega)]
+        exact index_total _ _ _ (by omega)
+      · intro last _
+        split
+        · rw [sliceTo_of_le _ _ _ (by omega)]; rfl
+        · rfl
+
+end Hts.Model.Decoders
